@@ -6,7 +6,7 @@ server emulation, fake proofreader) vs the model pipeline run_report
 reported at its own line / column / length in the source, the same in all
 modes, messages ordered by source position, each part submitted under its
 language with the configured rule options."""
-import json, os, random, socket, subprocess, time, urllib.parse, urllib.request
+import json, os, random, re, socket, subprocess, time, urllib.parse, urllib.request
 import core, shellrun, shellcase
 from gens import docs
 
@@ -320,6 +320,7 @@ def run(tier, seed, build, res):
     own_checks_stream(rng, res, 6 if tier == 'quick' else 80)
     server_language_stream(res)
     server_crlf_stream(res)
+    overlap_stream(res)
 
 
 def own_checks_stream(rng, res, n):
@@ -438,6 +439,44 @@ def server_crlf_stream(res):
         if got != want:
             res.failures.append((key, case, 'the server answers %r for the words at %r of the '
                                  'text it was sent' % (got, want)))
+
+
+def overlap_stream(res):
+    """HTML report: a message that overlaps the previous one is listed in the
+    table of overlapping messages under the line of its flagged word, for
+    every context size"""
+    lines = ['Zeile %d mit etwas Text hier.' % i for i in range(1, 10)]
+    lines[5] = 'Hier steht a secondd problem im Satz.'
+    lines[7] = 'Und noch ein Worrt dazu.'
+    tex = '\n'.join(lines) + '\n'
+    tex2, parts = shellcase.shell_parts(tex, 'en-GB', False, 2)
+    plain = parts[0][1]
+    o1 = plain.find('a secondd problem'); o2 = plain.find('secondd'); o3 = plain.find('Worrt')
+    ms = [shellcase.lt_match(plain, o1, len('a secondd problem'), rule='PHRASE'),
+          shellcase.lt_match(plain, o2, len('secondd'), rule='WORD'),
+          shellcase.lt_match(plain, o3, 5, rule='W3'),
+          shellcase.lt_match(plain, o3, 3, rule='W4')]
+    ans = json.dumps({'matches': ms}).encode('utf-8')
+    for ctx in ('0', '1', '2', '5', '-1'):
+        r = shellrun.run_shell({'t.tex': tex}, ['--language', 'en-GB', '--output', 'html',
+                                                '--context', ctx, 't.tex'], answers=[ans])
+        res.count('overlap', ('overlap', ctx), nontrivial=True)
+        key = 'c14-overlap:%s' % ctx
+        case = {'tex': tex, 'context': ctx, 'mode': 'html'}
+        if r.rc != 0 or r.traceback:
+            res.failures.append((key, case, 'shell failed: rc %d %s' % (r.rc, r.err[-200:])))
+            continue
+        out = r.out.decode('utf-8')
+        k = out.find('overlapping message(s)</H3>')
+        if k < 0:
+            res.failures.append((key, case, 'no table of overlapping messages in the report'))
+            continue
+        got = [int(n) for n in re.findall(r'<tr><td style="[^"]*" align="right" valign="top">'
+                                          r'(\d+)&nbsp;&nbsp;</td><td>', out[k:])]
+        want = [6, 8]
+        if got != want:
+            res.failures.append((key, case, 'overlapping messages are listed under lines %r, '
+                                 'the flagged words stand in lines %r' % (got, want)))
 
 
 def case_from_json(x):
